@@ -158,6 +158,7 @@ class InitScan:
         self.other = {a: 0 for a in argnames}   # loads outside if-tests / recognised stores / reassignments
         self.tests = {a: 0 for a in argnames}
         self.super_calls = 0
+        self.forwards = {}    # parameter -> keyword under which it is handed to the parent constructor through **kwargs
         body = fn.body
         if body and isinstance(body[0], ast.Expr) and isinstance(body[0].value, ast.Constant) and isinstance(body[0].value.value, str):
             body = body[1:]
@@ -217,6 +218,16 @@ class InitScan:
                     if not ok or guards:
                         raise Unsupported("super().__init__ call of unexpected shape: " + ast.unparse(c))
                     self.super_calls += 1
+                elif (isinstance(c, ast.Call) and isinstance(c.func, ast.Attribute) and c.func.attr == "update"
+                      and isinstance(c.func.value, ast.Name) and c.func.value.id == "kwargs" and not guards
+                      and self.super_calls == 0 and len(c.args) == 1 and not c.keywords and isinstance(c.args[0], ast.Dict)
+                      and all(isinstance(k, ast.Constant) and isinstance(k.value, str) for k in c.args[0].keys)):
+                    # kwargs.update({"style": style, ...}) before super().__init__(**kwargs): forwarded to the parent constructor
+                    for k, v in zip(c.args[0].keys, c.args[0].values):
+                        if isinstance(v, ast.Name) and v.id in self.other and v.id not in self.forwards:
+                            self.forwards[v.id] = k.value
+                        else:
+                            self.count_other(v)
                 else:
                     self.count_other(s)
             elif isinstance(s, (ast.Raise, ast.Return, ast.AugAssign, ast.Pass)):
@@ -259,6 +270,30 @@ def clark_to_qname(tag, rev_ns):
     if m.group(1) not in rev_ns:
         raise Unsupported("uri without prefix: " + tag)
     return rev_ns[m.group(1)] + ":" + m.group(2)
+
+
+_PARENT_CACHE = {}
+
+
+def parent_entries(cls, owner, gprops):
+    """entries of the constructor that `super().__init__(**kwargs)` of `owner` reaches, for the class `cls` under analysis"""
+    from odfdo.element import Element
+    mro = list(cls.__mro__)
+    nxt = None
+    for k in mro[mro.index(owner) + 1:]:
+        if "__init__" in k.__dict__:
+            nxt = k
+            break
+    if nxt is None or nxt is Element or nxt is object:
+        return None
+    key = (cls, nxt)
+    if key not in _PARENT_CACHE:
+        fn, _f = find_init(nxt)
+        entries, _pinned = classify(cls, nxt, fn, gprops)
+        for e in entries:
+            e["_owner"] = nxt.__name__
+        _PARENT_CACHE[key] = {e["arg"]: e for e in entries}
+    return _PARENT_CACHE[key]
 
 
 def classify(cls, owner, fn, gprops):
@@ -354,6 +389,17 @@ def classify(cls, owner, fn, gprops):
         else:
             entry.update(kind="Unrecognised",
                          note=("reassigned before use; " if tainted else "") + "used in %d other expression(s), %d test(s)" % (nother, sc.tests[arg]))
+        if (arg in sc.forwards and not pos_stores and not const_stores and not neg_stores and nother == 0
+                and sc.tests[arg] == 0 and not tainted):
+            # handed unchanged to the parent constructor: the parent's entry for that keyword applies
+            parent = parent_entries(cls, owner, gprops)
+            pe = parent.get(sc.forwards[arg]) if parent is not None else None
+            if pe is None:
+                entry.update(kind="Dropped", note="forwarded as %s= to a parent constructor that has no such parameter" % sc.forwards[arg])
+            else:
+                keep = dict(arg=arg, annotation=ann, default=dsrc)
+                entry.update(pe); entry.update(keep)
+                entry["note"] = ("forwarded as %s= to %s.__init__; " % (sc.forwards[arg], pe["_owner"]) + pe.get("note", "")).strip()
         res.append(entry)
     return res, pinned
 
